@@ -676,6 +676,25 @@ func (e *specEnv) evalCall(n *ECall) sv {
 		return sv{app("s-"+n.Fun, a.t), tInt}
 	case "alloc":
 		return sv{c.alloc(), tInt}
+	case "after":
+		// after(K, E): E in the state right after the K-th call of the function (calls counted in source
+		// order); available where that call has been executed on every path to the clause
+		if len(n.Args) != 2 {
+			specFail("after(K, E) takes two arguments")
+		}
+		ki, ok := n.Args[0].(*EInt)
+		if !ok || !ki.Val.IsInt64() {
+			specFail("after(K, E): K must be an integer literal")
+		}
+		snap, ok := c.callSnaps[int(ki.Val.Int64())]
+		if !ok {
+			specFail("after(%d, ...): no such call has been translated yet", ki.Val.Int64())
+		}
+		saved := c.cur
+		c.cur = snap.clone()
+		v := e.eval(n.Args[1])
+		c.cur = saved
+		return v
 	case "unchanged":
 		// unchanged(): no modelled heap differs from its state at entry (the call wrote nothing)
 		if e.old == nil {
